@@ -23,3 +23,21 @@ package promise
 //@ ensures result == nil && upper(jsonstr(data)) == "REJECTED_CANCELED" ==> *s == Canceled
 //@ ensures result == nil && upper(jsonstr(data)) == "REJECTED_TIMEDOUT" ==> *s == Timedout
 //@ ensures result == nil ==> upper(jsonstr(data)) == "PENDING" || upper(jsonstr(data)) == "RESOLVED" || upper(jsonstr(data)) == "REJECTED" || upper(jsonstr(data)) == "REJECTED_CANCELED" || upper(jsonstr(data)) == "REJECTED_TIMEDOUT"
+
+// Printing a value or a promise (request/response logging on the request path) only reads it (C20, C01: the bytes
+// a client supplied are what is stored and returned, whatever the log level): no field is assigned and no slice is
+// extended - an append to a prefix of the data slice would write into the caller's own bytes.
+//@ func (Value).String
+//@ props C20 C01
+//@ nopanic C13
+//@ abstract-calls external
+//@ count-appends
+//@ site store assert false
+//@ ensures [body] calls("append") == 0
+
+//@ func (*Promise).String
+//@ props C20 C01
+//@ abstract-calls .*
+//@ count-appends
+//@ site store assert false
+//@ ensures [body] calls("append") == 0
